@@ -43,6 +43,9 @@ Definition run_C01_all (s : sexp) : sexp :=
           SList [SList (map SStr text); of_bool (forallb well_formed ls); run_views mname (number_list 1 ls);
                  SList (map (enc_occ text) (occ_list 1 ls))]
       | None => bad_input end
+  | SList [SStr "dedent"; ls] =>
+      (* Object.source of an object whose lines are ls *)
+      match as_list_of as_str ls with Some l => SList (map SStr (dedent l)) | None => bad_input end
   | SList [SStr "doc-labels"] =>
       (* the documented decorator table of theorem C01_decorator_labels_documented *)
       SList (map (fun p => SList [SStr p; enc_strs (doc_labels p)]) doc_paths)
